@@ -15,7 +15,8 @@ PROP_MODULES = ["UsualProofs.Props.C18"]
 REPO_SRCS = ["repo:usual/cfparser.c", "repo:usual/fileutil.c", "repo:usual/string.c",
              "repo:usual/mbuf.c", "repo:usual/cxalloc.c", "repo:usual/base.c"]
 WRAP = "-Wl," + ",".join("--wrap=" + f for f in
-                         ("malloc", "calloc", "realloc", "free", "strdup", "fopen", "fopen64",
+                         ("malloc", "calloc", "realloc", "free", "strdup", "strndup", "reallocarray", "posix_memalign",
+                          "aligned_alloc", "fopen", "fopen64",
                           "getpwnam", "getpwuid"))
 
 
@@ -555,6 +556,43 @@ def fn_case(rng):
     return ops
 
 
+def leak_case(rng):
+    """every way a nested include can fail, at every depth, with the handler refusing at every
+    event index: nothing may stay allocated (live=0) on any unwinding path"""
+    d = 1 + rng.below(10)
+    kind = rng.below(8)
+    ops = []
+    names = [b"g%d" % i for i in range(d + 1)]
+    for i in range(d):
+        ops.append("file %s %s" % (hx(names[i]), hx(b"a%d=1\n%%include %s\nb%d=2\n" % (i, names[i + 1], i))))
+    last = {0: None,                                   # the innermost file is missing
+            1: b"ok = 1\nbad line\nnever=1\n",        # syntax error inside the include
+            2: b"[s]\nz=1\n",                          # fine
+            3: b"%include " + names[d] + b"\n",         # includes itself -> depth limit
+            4: b"%include g0\n",                        # loop through the top file
+            5: b"[unterminated\n",
+            6: b"k=v\n%include nosuch\n",              # missing file one level further down
+            7: b""}[kind]
+    if last is not None:
+        ops.append("file %s %s" % (hx(names[d]), hx(last)))
+    ops.append("parse %s 0" % hx(names[0]))
+    if rng.chance(1, 2):
+        for k in range(1, 2 * d + 5):                 # handler refuses the k-th event, every k
+            ops.append("parse %s %d" % (hx(names[0]), k))
+    else:
+        ops.append("parse %s %d" % (hx(names[0]), 1 + rng.below(2 * d + 4)))
+    if rng.chance(1, 2):
+        # the same through cf_load_file: missing main section, unknown key / section inside the include
+        inner = rng.choice([b"zz=1\n", b"[nosuch]\n", b"i=7\n", b"i=notanumber\n", b"[two]\ns2=x\n", None])
+        ops.append("schema 0")
+        ops.append("file %s %s" % (hx(b"top"), hx(rng.choice([b"[main]\n", b"", b"[two]\n"]) + b"%include m1\ns=after\n")))
+        ops.append("file %s %s" % (hx(b"m1"), hx(b"u=1\n%include m2\n")))
+        if inner is not None:
+            ops.append("file %s %s" % (hx(b"m2"), hx(inner)))
+        ops += ["load %s" % hx(b"top"), "dump"]
+    return ops
+
+
 def monitor(lines, c_lines):
     """property monitor on the implementation's own output (independent of the model):
     nothing may stay allocated, a loaded buffer must be intact when freed, and in a
@@ -638,7 +676,7 @@ def run(ck):
                       "final newline, sections/keys with characters at the borders of the key charset, '=' missing, empty "
                       "values, trailing whitespace, several sections on a line, %include with/without blank, nested includes "
                       "to depth 12, self-includes, missing files), the same with 1-3 byte mutations (incl. NUL), and raw bytes; "
-                      "handler refusing the n-th event.  cf cases: histories of schema/loaded/home/file/load/set/get/dump over "
+                      "handler refusing the n-th event; failing-include cases: chains of depth 1..10 whose innermost file is missing / has a syntax error / includes itself / loops / is fine, parsed with the handler refusing at EVERY event index k, and the same through cf_load_file (missing main section, unknown key/section inside an include) — `live` after each call must be 0.  cf cases: histories of schema/loaded/home/file/load/set/get/dump over "
                       "four schemas (absolute, relative with base_lookup, dynamic set_key, relative with NULL base) with typed "
                       "values at boundaries; filename cases: `~`, `~/rest`, `~user[/rest]`, unknown user, with $HOME short / "
                       "long (200..4096 bytes) / empty / unset and expansion lengths around 255/256, 1023/1024/1025, 4095/4096, "
@@ -681,6 +719,8 @@ def run(ck):
     go(rc, "roundtrip")
     fc = [fn_case(rng) for _ in range(n // 8)]
     go(fc, "filename")
+    lc = [leak_case(rng) for _ in range(n // 12)]
+    go(lc, "failing-includes")
     for c in (pc[0], pc[1], cc[0], rc[0], fc[0]):
         ck.sample(c[:10])
     ck.cov["op_histogram"] = hist
